@@ -532,8 +532,12 @@ def run_async(cfg):
                     res(1, exc_code(exc))
             elif what in (OP_RECV, OP_RECV_INTO):
                 n, maxcalls = step[1], step[2]
-                for _ in range(maxcalls):
+                again = 0
+                for call_no in range(maxcalls + 2):
+                    if call_no >= maxcalls and not again:
+                        break
                     ops.append([what, n])
+                    ended = False
                     try:
                         if what == OP_RECV:
                             got = len(await t.recv(n))
@@ -541,22 +545,38 @@ def run_async(cfg):
                             buf = bytearray(n)
                             got = await t.recv_into(buf)
                         res(0, got)
+                        ended = got == 0
                     except BaseException as exc:
                         res(1, exc_code(exc))
-                        break
-                    if got == 0:
-                        break
+                        ended = True
+                    if ended:
+                        # the verdict must be sticky: read again after an error / end-of-stream (live sessions only)
+                        again += 1
+                        if fake is not None or maxcalls <= 1 or again > 2:
+                            break
             elif what == OP_CLOSE:
                 ops.append([OP_CLOSE, 0])
                 try:
-                    await t.aclose()
-                    res(0, 0)
+                    if cfg.get("outer_scope"):
+                        # aclose() in the clean-up of a request whose timeout scope has already expired
+                        with tr.backend().move_on_after(0):
+                            try:
+                                await t.aclose()
+                                res(0, 0)
+                            except BaseException as exc:
+                                res(1, exc_code(exc))
+                                raise
+                    else:
+                        await t.aclose()
+                        res(0, 0)
                 except BaseException as exc:
                     res(1, exc_code(exc))
         info["t"] = t
 
     detloop.run(main())
     answers, obs = _events_to_case(rec.events)
+    if cfg.get("outer_scope"):
+        answers = [[1, 5, 0] if a[:2] == [1, 4] else a for a in answers]     # the cancellation comes from the outer scope
     tr = info["tr"]
     info.update(delivered=tr.delivered, peer_total=peer.total_out, cn_seen=bool(peer.got_close_notify),
                 peer_done=bool(getattr(peer, "handshaken", False) and not getattr(peer, "script", None)),
@@ -787,16 +807,23 @@ def run_sync(cfg):
                     res(1, exc_code(exc))
             elif what in (OP_RECV, OP_RECV_INTO):
                 n, maxcalls = step[1], step[2]
-                for _ in range(maxcalls):
+                again = 0
+                for call_no in range(maxcalls + 2):
+                    if call_no >= maxcalls and not again:
+                        break
                     ops.append([what, n])
+                    ended = False
                     try:
                         got = len(t.recv(n, tmo)) if what == OP_RECV else t.recv_into(bytearray(n), tmo)
                         res(0, got)
+                        ended = got == 0
                     except BaseException as exc:
                         res(1, exc_code(exc))
-                        break
-                    if got == 0:
-                        break
+                        ended = True
+                    if ended:
+                        again += 1
+                        if fake is not None or maxcalls <= 1 or again > 2:
+                            break
             elif what == OP_CLOSE:
                 ops.append([OP_CLOSE, 0])
                 try:
@@ -922,10 +949,12 @@ def run_default_client(cfg):
         ssl.create_default_context = saved
     npackets = 0
     if client is not None:
-        for _ in range(6):
+        ended = 0
+        for _ in range(8):
             try:
                 client.recv_packet(timeout=5.0)
                 npackets += 1
+                continue
             except ConnectionAbortedError as exc:
                 # the endpoint reports a clean end-of-stream as ECONNABORTED "(end-of-stream)"; the client converts an
                 # SSL EOF error into the same class (without the suffix, the SSL error as __cause__): tell them apart
@@ -933,9 +962,10 @@ def run_default_client(cfg):
                     last = [1, 1, exc_code(exc.__cause__)]
                 else:
                     last = [1, 0, 0]
-                break
             except BaseException as exc:
                 last = [1, 1, exc_code(exc)]
+            ended += 1                      # the verdict must be sticky: ask twice more
+            if ended > 2:
                 break
     answers = list(log)
     if client is not None:
@@ -1038,14 +1068,17 @@ def run_default_client_async(cfg):
             res["first"] = [1, 1, exc_code(unwrap_cause(exc))]
             res["end"] = len(rec.events)
             return
-        for _ in range(6):
+        ended = 0
+        for _ in range(8):
             try:
                 await client.recv_packet()
+                continue
             except ConnectionAbortedError as exc:
                 res["last"] = [1, 1, exc_code(exc.__cause__)] if isinstance(exc.__cause__, ssl.SSLError) else [1, 0, 0]
-                break
             except BaseException as exc:
                 res["last"] = [1, 1, exc_code(exc)]
+            ended += 1                      # sticky verdict: ask twice more
+            if ended > 2:
                 break
         res["end"] = len(rec.events)
         try:
@@ -1323,7 +1356,7 @@ def _cfg_sx(cfg):
                 [list(s) for s in cfg["plan"]], int(cfg.get("hs_timeout", 60)), int(cfg.get("sd_timeout", 30))]
     return [b"real", cfg["ver"], int(cfg["client"]), -1 if cfg.get("cut") is None else cfg["cut"], int(cfg["ign"]),
             list(cfg["peer"]), [list(s) for s in cfg["plan"]], cfg.get("frag", 0), int(cfg.get("reply_close", 0)),
-            int(cfg.get("silent", 0)), cfg.get("how", 0)]
+            int(cfg.get("silent", 0)), cfg.get("how", 0), int(cfg.get("sd_timeout", 30)), int(cfg.get("outer_scope", 0))]
 
 
 def _sx_cfg(kind, std, f):
@@ -1332,7 +1365,8 @@ def _sx_cfg(kind, std, f):
         return dict(kind=kind, std=std, fake=dict(ssl=[tuple(x) for x in f[1]], rx=list(f[2]), tx=list(f[3])),
                     plan=[_plan_step(s) for s in f[4]], hs_timeout=float(f[5]), sd_timeout=float(f[6]))
     return dict(kind=kind, std=std, ver=f[1], client=f[2], cut=None if f[3] < 0 else f[3], ign=f[4], peer=list(f[5]),
-                plan=[_plan_step(s) for s in f[6]], frag=f[7], reply_close=f[8], silent=f[9], how=f[10])
+                plan=[_plan_step(s) for s in f[6]], frag=f[7], reply_close=f[8], silent=f[9], how=f[10],
+                sd_timeout=float(f[11]) if len(f) > 11 else 30.0, outer_scope=f[12] if len(f) > 12 else 0)
 
 
 def _plan_step(s):
@@ -1591,6 +1625,20 @@ def _close_cases(rng):
                                        tags=["async", "close-open-transport", "std" if std else "nonstd", "real-openssl",
                                              "unread-data-at-close" if first == 5 else "all-read",
                                              "peer-replies" if reply else ("peer-silent-timeout" if silent else "peer-ends")])
+                # the time budget of the closing handshake is already used up (shutdown timeout 0, or aclose() inside an
+                # expired scope): the close notification is still handed to the wrapped transport before anything waits
+                for sd, outer in ((0, 0), (30, 1), (0, 1)):
+                    for first in (RECV_SIZE, 5):
+                        if (first == 5 and (not _unread_close_ok() or outer)) or (outer and not std):
+                            continue        # (outer scope + unread data: the cancellation lands inside transport.aclose(),
+                                            # a point the op-layer model treats as atomic)
+                        cfg = dict(kind=K_ASYNC, std=std, ver=ver, client=client, cut=None, ign=0, peer=[20],
+                                   plan=[(OP_RECV, first, 1), (OP_CLOSE, 0, 0)], reply_close=0, silent=1,
+                                   sd_timeout=sd, outer_scope=outer)
+                        inp, _out, _info = _build(cfg)
+                        yield dict(input=inp, nontrivial=True,
+                                   tags=["async", "close-open-transport", "expired-scope", "std" if std else "nonstd", "real-openssl",
+                                         "shutdown-timeout-0" if sd == 0 else "outer-scope-expired"])
                 for pre in ([], [(OP_SEND, [10])]):
                     cfg = dict(kind=K_SYNC, std=std, ver=ver, client=client, cut=None, ign=0, peer=[20],
                                plan=[(OP_RECV, RECV_SIZE, 1)] + pre + [(OP_CLOSE, 0, 0), (OP_CLOSE, 0, 0)])
@@ -1699,7 +1747,8 @@ def oracle(inp):
                      and not any(op[0] == OP_SEND and r_[1] == 1 for op, r_ in zip(ops, results)))
     if std and open_at_close and any(op[0] == OP_CLOSE for op in ops):
         close_res = [res for op, res in zip(ops, results) if op[0] == OP_CLOSE]
-        if close_res and close_res[0][1] == 0 and not info["cn_seen"] and info.get("err") is None:
+        closed = close_res and (close_res[0][1] == 0 or (cfg.get("outer_scope") and close_res[0][1:] == [1, 12]))
+        if closed and not info["cn_seen"] and info.get("err") is None:
             return "standard-compatible close of an open transport did not deliver a close-notify to the peer"
     return None
 
